@@ -16,7 +16,7 @@ RULE = ("chain and two-branch topologies giving routes of 1..8 hops between real
         "(NETWORK_ACK frames by originator/PID, reception time at the origin) and the call history "
         "(result, virtual duration). Non-trivial: >=1 frame crossed the air and quiescence was "
         "reached; distinct = (hops, type class, fault plan kind and position, timeouts).")
-RULE += (" Later rounds added: same-header re-sends, foreign frames to relay during the origin's wait (with and without loss), multicast-off nodes, multicasts through relays (no NETWORK_ACK), multicast_level overrides.")
+RULE += (" Later rounds added: same-header re-sends, foreign frames to relay during the origin's wait (with and without loss), multicast-off nodes, multicasts through relays (no NETWORK_ACK), multicast_level overrides, a frame to relay queued in the origin's RX FIFO just ahead of its NETWORK_ACK.")
 REQUIRED = {"result_vs_ack_arrival": 150, "ack_count": 300, "no_ack_for_others": 150,
             "duration_bound": 300}
 BUDGET = {"quick": 480, "thorough": 900}
@@ -49,6 +49,7 @@ def chains(rng):
 
 def gen_cases(ctx):
     rng = ctx.sub_rng("c13")
+    rng2 = ctx.sub_rng("c13b")  # later additions draw from their own stream
     ntop = 220 if ctx.tier == "quick" else 8000
     alltypes = [t for t in range(256) if t not in CONSUMED]
     for i in range(ntop):
@@ -102,6 +103,14 @@ def gen_cases(ctx):
                 if absent:
                     ms["foreign"] = {"to": rng.choice(absent), "type": rng.choice([193, 70, 1]),
                                      "delay_us": rng.choice([200, 1000, 3000]), "trigger": "first_hop"}
+            if plan is None and "foreign" not in ms and len(path) >= 3 and 65 <= t <= 191 and "mc" not in ms \
+                    and net_ref.level(src) < 4 and rng2.random() < 0.8:
+                # nothing is lost; a foreign frame for an absent child reaches the origin's RX FIFO
+                # just ahead of its NETWORK_ACK
+                kids = [src | (c << (3 * net_ref.level(src))) for c in range(1, 6)]
+                absent = [a for a in kids if a not in nodes and a != net_ref.DEFAULT_ADDR]
+                if absent:
+                    ms["foreign"] = {"to": rng2.choice(absent), "type": rng2.choice([193, 70, 1]), "trigger": "with_ack"}
             msgs.append(ms)
             if rng.random() < 0.25:
                 # the application sends the same header object again (same id, same type)
@@ -158,6 +167,15 @@ def _run(ctx, case, net):
                 frame = net_ref.pack_header(fo["to"], fo["to"], FOREIGN_ID, fo["type"], 0)
                 net.world.at(pkt.t1 + fo["delay_us"] * W.US + 400 * W.US, net.bykey[active["origin"]].radio.inject_rx, 0, frame)
                 ctx.count("foreign_frames_injected_without_loss")
+        if (fo is not None and fo.get("trigger") == "with_ack" and pkt.kind == "data" and len(pkt.payload) >= 8
+                and rx is net.bykey[active["origin"]].radio and not rx.rx_fifo):
+            h0 = net_ref.unpack_header(pkt.payload)
+            if h0["id"] == active["mid"] and h0["type"] == net_ref.NETWORK_ACK and h0["from"] == h0["to"] == active["origin"]:
+                # the origin's radio is about to take its NETWORK_ACK: a frame it must relay (to a
+                # child that is not there) got in just before, so both wait in the RX FIFO
+                active["foreign"] = None
+                rx.inject_rx(0, net_ref.pack_header(fo["to"], fo["to"], FOREIGN_ID, fo["type"], 0))
+                ctx.count("foreign_frames_queued_ahead_of_the_ack")
         if pl is None or pkt.kind != "data" or len(pkt.payload) < 8:
             return False
         h = net_ref.unpack_header(pkt.payload)
